@@ -78,6 +78,8 @@ def _node_task(nid):
         shutil.rmtree(src, ignore_errors=True)
         X.create(src)
         src_ans = None
+    elif not os.path.exists(snap):
+        return [{"skip": "state not materialised (an earlier step was refused by C git or left the model)", "lab": "", "viol": [], "shape": []}]
     else:
         RP.restore(snap, src)
         with open(os.path.join(src, "ans.json")) as f:
@@ -103,6 +105,8 @@ def _node_task(nid):
                 json.dump({"f": res["ans"], "n": res["ans_n"]}, f)
             RP.snapshot(root, os.path.join(snapdir, f"{dst}.tar"))
         res["src"], res["dst"], res["tree"] = nid, dst, tree_edge
+        if res.get("skip"):
+            res["skip"] = f"{res['lab']}: {res['skip']}"
         res.pop("ans_w", None)
         if not tree_edge:
             res.pop("ans_n", None)
@@ -128,6 +132,12 @@ def path_to(parent, nid):
 
 
 def report(ctx, res, path, model, extra=None):
+    if res.get("skip"):
+        sk = ctx.cov.setdefault("skipped", {"count": 0, "samples": []})
+        sk["count"] += 1
+        if len(sk["samples"]) < 3:
+            sk["samples"].append({"after": path, "why": res["skip"]})
+        return
     for i in res.get("info", []):
         lat = ctx.cov.setdefault("latent", {"count": 0, "samples": []})
         lat["count"] += 1
@@ -188,6 +198,9 @@ def replay_graph(ctx, cfgname, budget, label):
         for lv in sorted(by_level):
             for out in pool.imap_unordered(_node_task, by_level[lv], chunksize=1):
                 for res in out:
+                    if res.get("skip"):
+                        report(ctx, res, [res.get("lab", "")], None)
+                        continue
                     nexec += 1
                     ctx.count()
                     labs, nodes = path_to(parent, res["src"])
@@ -225,7 +238,7 @@ def run_behaviour(ctx, labels, models, seed=0, who_seq=None, opts=None, strict_s
         res = RP.step(root, scratch, models[k], lab, models[k + 1], src_ans, seed=seed,
                       who=(who_seq[k] if who_seq else None), opts=opts, light=False)
         out.append(res)
-        if res["ans"] is None or (strict_shape and res["shape"]):
+        if res.get("skip") or res["ans"] is None or (strict_shape and res["shape"]):
             break
         src_ans = {"f": res["ans"], "n": res["ans_n"]}
     shutil.rmtree(root, ignore_errors=True)
@@ -306,7 +319,7 @@ def _walk_task(job):
                    "viol": [], "ans": None, "ans_n": None, "tb": traceback.format_exc()[-1500:]}
         res.pop("ans_w", None)
         out.append(res)
-        if res["ans"] is None or res["shape"]:
+        if res.get("skip") or res["ans"] is None or res["shape"]:
             break
         src_ans = {"f": res["ans"], "n": res["ans_n"]}
         res.pop("ans", None)
@@ -325,7 +338,7 @@ def walks(ctx, num, depth, ncommits):
     txt = re.sub(r"N = \d+", f"N = {ncommits}", txt)
     txt = re.sub(r"MaxDepth = \d+", "MaxDepth = 0", txt)
     txt = re.sub(r"MaxPacks = \d+", "MaxPacks = 3", txt)
-    txt = txt.replace("VIEW view\n", "").replace("INVARIANT Exact\n", "")
+    txt = txt.replace("VIEW view\n", "").replace("INVARIANT Exact\n", "").replace("WithIdx = FALSE", "WithIdx = TRUE")
     with open(cfg, "w") as f:
         f.write(txt)
     nw = 4
@@ -349,6 +362,9 @@ def walks(ctx, num, depth, ncommits):
             labels, models = jobs[k][1], jobs[k][2]
             steps = []
             for i, r in enumerate(out):
+                if r.get("skip"):
+                    report(ctx, r, labels[:i + 1], None)
+                    continue
                 nsteps += 1
                 ctx.count()
                 if r["viol"] or r["shape"] or r.get("info"):
@@ -394,10 +410,10 @@ def run(ctx):
                          coverage=not ctx.quick)
     futs = defect_runs(ctx, pool)
     t0 = os.times()
-    budget = int(os.environ.get("C14_BUDGET", ctx.pick(5000, 50000)))       # (C14_BUDGET: debugging aid)
+    budget = int(os.environ.get("C14_BUDGET", ctx.pick(5000, 40000)))       # (C14_BUDGET: debugging aid)
     records = replay_graph(ctx, ctx.pick("Accel_mc.cfg", "Accel_mc5.cfg"), budget, ctx.pick("depth 4", "depth 5"))
     defect_replays(ctx, futs)
-    wtraces, wmeta = walks(ctx, ctx.pick(40, 800), ctx.pick(12, 16), ctx.pick(5, 6))
+    wtraces, wmeta = walks(ctx, ctx.pick(40, 600), ctx.pick(12, 16), ctx.pick(5, 6))
     t1 = os.times()
     ctx.cov["replay_cpu_s"] = round((t1.children_user + t1.children_system + t1.user + t1.system)
                                     - (t0.children_user + t0.children_system + t0.user + t0.system), 1)
